@@ -44,6 +44,10 @@ def _reject(arg):
     return i, rc, se[-800:], created
 
 
+def _reject_many(args):
+    return [_reject(a) for a in args]
+
+
 def check(tier):
     global _WD
     rep = Report(PID, tier, "exploration")
@@ -85,7 +89,14 @@ def check(tier):
         for cls, desc, prog in gen4.inject_defects(c):
             inj.append((cls, desc + " in: " + c.desc, print_program(prog)))
     classes = {}
-    for k, (i, rc, se, created) in enumerate(pmap(_reject, [(i, t[2]) for i, t in enumerate(inj)], chunksize=8)):
+    done = 0
+    dl = Deadline(420 if tier == "quick" else 3000)
+    results = (r for group in pmap_unordered(_reject_many, list(chunks([(i, t[2]) for i, t in enumerate(inj)], 48))) for r in group)
+    for k, (i, rc, se, created) in enumerate(results):
+        done += 1
+        if dl.expired():
+            rep.capped("deadline: %d of %d injected defects were run (simplest rules first)" % (done, len(inj)))
+            break
         cls, desc, text = inj[i]
         rep.add("evaluations")
         classes[cls] = classes.get(cls, 0) + 1
